@@ -262,60 +262,79 @@ theorem specGo_zero_fast (b : UInt8) (rest : Bytes) (hb : b.toNat < 128) :
   simp [specGo, gatherVar, hb, varValue, Nat.mod_eq_of_lt hb]
   omega
 
+/-- the slow path is the reference reading on every input. -/
+theorem varintSlow_spec (bs : Bytes) : varintSlow bs = decVarSpec bs := by
+  rw [decVarSpec_eq]
+  unfold varintSlow
+  by_cases hlen : bs.length ≤ 10
+  · rw [Nat.min_eq_right hlen]
+    exact slowGo_spec _ 0 0 bs (by simp) (Nat.le_refl _) (Or.inr ⟨rfl, by omega⟩)
+  · rw [Nat.min_eq_left (by omega)]
+    exact slowGo_spec 10 0 0 bs (by simp) (by omega) (Or.inl rfl)
+
+/-- the slice path (with the `advance` that follows it) is the reference reading wherever its
+guard holds. -/
+theorem varintViaSlice_spec (bs : Bytes) (hpre : slicePre bs = true) : varintViaSlice bs = decVarSpec bs := by
+  rw [decVarSpec_eq]
+  unfold slicePre at hpre
+  simp only [Bool.and_eq_true, Bool.not_eq_true', Bool.or_eq_true, decide_eq_true_eq] at hpre
+  obtain ⟨hne, hpre⟩ := hpre
+  have hok : sliceOk 0 bs := by
+    rcases hpre with h | h
+    · left; omega
+    · right; exact h
+  have hs := sliceGo_spec bs 0 0 (by simp) (by omega) hok
+  have hpre' : (decide (bs.length > 10) || lastLt128 bs) = true := by
+    simp only [Bool.or_eq_true, decide_eq_true_eq]; exact hpre
+  have hvs : varintSlice bs = sliceGo 0 0 bs := by
+    unfold varintSlice
+    simp only [hne, Bool.false_eq_true, if_false, hpre', Bool.not_true]
+  unfold varintViaSlice
+  rw [hvs]
+  cases hsp : specGo 0 0 bs with
+  | ok p =>
+    obtain ⟨v, r⟩ := p
+    simp only [hsp] at hs
+    rw [hs]
+    simp only [Nat.zero_add]
+    have hsuf : ∃ g, bs = g ++ r := by
+      unfold specGo at hsp
+      cases hg : gatherVar (10 - 0) bs with
+      | ok q =>
+        obtain ⟨g, r'⟩ := q
+        simp only [hg] at hsp
+        split at hsp
+        · cases hsp; exact ⟨g, gatherVar_suffix _ _ _ _ hg⟩
+        · cases hsp
+      | err k => simp [hg] at hsp
+      | panic s => simp [hg] at hsp
+      | fuel => simp [hg] at hsp
+    obtain ⟨g, hg⟩ := hsuf
+    have hle : bs.length - r.length ≤ bs.length := Nat.sub_le _ _
+    simp only [hle, if_true]
+    rw [hg]
+    simp
+  | err k => simp only [hsp] at hs; rw [hs, specGo_err _ _ _ _ hsp]
+  | panic s => simp [hsp] at hs
+  | fuel => simp [hsp] at hs
+
 /-- **the three paths agree**: `decode_varint` is the reference reading on every input. -/
 theorem decodeVarint_eq_spec (bs : Bytes) : decodeVarint bs = decVarSpec bs := by
-  rw [decVarSpec_eq]
   cases bs with
-  | nil => simp [decodeVarint, specGo, gatherVar]
+  | nil => simp [decodeVarint, decVarSpec, gatherVar]
   | cons b rest =>
     unfold decodeVarint
     by_cases hb : b.toNat < 128
-    · simp only [hb, if_true]; exact (specGo_zero_fast b rest hb).symm
+    · simp only [hb, if_true]; rw [decVarSpec_eq]; exact (specGo_zero_fast b rest hb).symm
     · simp only [hb, if_false]
       split
       · rename_i hpre
-        have hok : sliceOk 0 (b :: rest) := by
-          simp only [Bool.or_eq_true, decide_eq_true_eq] at hpre
-          rcases hpre with h | h
-          · left; omega
-          · right; exact h
-        have hs := sliceGo_spec (b :: rest) 0 0 (by simp) (by omega) hok
-        have hvs : varintSlice (b :: rest) = sliceGo 0 0 (b :: rest) := by
-          unfold varintSlice
-          simp only [List.isEmpty_cons, Bool.false_eq_true, if_false, hpre, Bool.not_true]
-        rw [hvs]
-        cases hsp : specGo 0 0 (b :: rest) with
-        | ok p =>
-          obtain ⟨v, r⟩ := p
-          simp only [hsp] at hs
-          rw [hs]
-          simp only [Nat.zero_add]
-          have hsuf : ∃ g, b :: rest = g ++ r := by
-            unfold specGo at hsp
-            cases hg : gatherVar (10 - 0) (b :: rest) with
-            | ok q =>
-              obtain ⟨g, r'⟩ := q
-              simp only [hg] at hsp
-              split at hsp
-              · cases hsp; exact ⟨g, gatherVar_suffix _ _ _ _ hg⟩
-              · cases hsp
-            | err k => simp [hg] at hsp
-            | panic s => simp [hg] at hsp
-            | fuel => simp [hg] at hsp
-          obtain ⟨g, hg⟩ := hsuf
-          have hle : (b :: rest).length - r.length ≤ (b :: rest).length := Nat.sub_le _ _
-          simp only [hle, if_true]
-          rw [hg]
-          simp
-        | err k => simp only [hsp] at hs; rw [hs, specGo_err _ _ _ _ hsp]
-        | panic s => simp [hsp] at hs
-        | fuel => simp [hsp] at hs
+        apply varintViaSlice_spec
+        unfold slicePre
+        simp only [List.isEmpty_cons, Bool.not_false, Bool.true_and]
+        exact hpre
       · rename_i hpre
-        simp only [Bool.or_eq_true, decide_eq_true_eq, not_or] at hpre
-        unfold varintSlow
-        have hlen : (b :: rest).length ≤ 10 := by omega
-        rw [Nat.min_eq_right hlen]
-        exact slowGo_spec _ 0 0 (b :: rest) (by simp) (Nat.le_refl _) (Or.inr ⟨rfl, by omega⟩)
+        exact varintSlow_spec _
 
 /-! ### consequences -/
 
